@@ -39,7 +39,9 @@ ASSUMPTIONS = ["process B rebuilds each object from the symbolic history alone; 
 
 NUMF = ["x", "center(x)", "scale(x)", "poly(x, 2)", "bs(x, df=4)", "bs(x, knots=kn)", "cr(x, df=3)", "scale(x, center=cval)", "I(x * cval)",
         "{center(x) * center(x)}", "log(p)", "p", "standardize(p)", "bs(p, knots=kn2, degree=2)", "hashed(S, levels=4)",
-        "center(`b m`)", "scale(`b m`)", "poly(`b m`, 2)", "`b m`", "I(`b m` * 2)"]
+        "center(`b m`)", "scale(`b m`)", "poly(`b m`, 2)", "`b m`", "I(`b m` * 2)",
+        # transforms applied to the caller's own arrays (which must come back untouched)
+        "lag(carr)", "center(carr)", "I(carr * 2)", "lag(carr, 2)"]
 CATF = ["A", "C(A)", "C(A, contr.sum)", "C(A, contr.helmert)", "S", "C(S, levels=lv)", "B", "C(B, contr.poly)"]
 
 
@@ -85,8 +87,9 @@ def gen_frame(rng, n, nulls, plain=False, p_text=False):
 
 
 def gen_case(rng: random.Random, tier: str) -> dict:
-    frames = [gen_frame(rng, rng.choice([10, 14, 20]), rng.random() < 0.4, rng.random() < 0.4, rng.random() < 0.2) for _ in range(rng.randint(2, 3))]
     formulas = [gen_formula(rng) for _ in range(rng.randint(3, 5))]
+    sizes = [20] if any("carr" in f for f in formulas) else [10, 14, 20]  # (the caller's array has 20 entries)
+    frames = [gen_frame(rng, rng.choice(sizes), rng.random() < 0.4, rng.random() < 0.4, rng.random() < 0.2) for _ in range(rng.randint(2, 3))]
     ops, nspec = [], 0
     for _ in range(rng.randint(8, 30)):
         kind = rng.choice(["mm", "mm", "formula_mm", "mat_mm", "fit", "fit", "replay", "replay", "replay", "clone", "unfit", "repeat"])
@@ -117,7 +120,8 @@ def gen_case(rng: random.Random, tier: str) -> dict:
 
 
 def make_ctx():
-    return {"kn": [2.5, 5.0, 7.5], "kn2": [3.0, 6.0], "cval": 2.0, "lv": ["s3", "s1", "s2"]}
+    return {"kn": [2.5, 5.0, 7.5], "kn2": [3.0, 6.0], "cval": 2.0, "lv": ["s3", "s1", "s2"],
+            "carr": np.array([0.5 + 0.25 * i for i in range(20)])}
 
 
 def result_digest(res, drop):
